@@ -105,7 +105,11 @@ fn canon(ts: &[Tt], n: usize, f: usize) -> Vec<String> {
 
 /// template: fixed tokens and per-field repetitions
 #[derive(Clone, Debug, PartialEq)]
-pub enum Tm { T(Vec<String>), Rep { leaf: Vec<String>, nest: Vec<String>, sep: String, trailing: bool } }
+pub enum Tm { T(Vec<String>), Rep { leaf: Vec<String>, nest: Vec<String>, sep: String, trailing: bool },
+              /// `e0.m(e1).m(e2)…`: a left fold over the fields (the zip chains of iter.rs)
+              Chain { leaf: Vec<String>, nest: Vec<String>, method: String },
+              /// `((f0, f1), f2)…`: the left-nested tuple pattern over the field names
+              TuplePat }
 
 fn push_tok(out: &mut Vec<Tm>, s: String) { if let Some(Tm::T(v)) = out.last_mut() { v.push(s); } else { out.push(Tm::T(vec![s])); } }
 
@@ -120,9 +124,34 @@ fn split_items(ts: &[Tt], sep: &str) -> (Vec<Vec<Tt>>, bool) {
     (items, trailing)
 }
 
+
+/// `((a, b), c)` → [a, b, c]
+fn left_nested(inner: &[Tt]) -> Option<Vec<String>> {
+    // inner = X , ident   where X is an ident or a parenthesised left-nested pair
+    if inner.len() != 3 { return None; }
+    let last = match &inner[2] { Tt::Tok(s) => s.clone(), _ => return None };
+    match &inner[1] { Tt::Tok(c) if c == "," => {}, _ => return None }
+    let mut v = match &inner[0] { Tt::Tok(s) => vec![s.clone()], Tt::Grp('(', g) => left_nested(g)?, _ => return None };
+    v.push(last); Some(v)
+}
+/// the whole sequence is `HEAD . m ( X1 ) . m ( X2 )` with HEAD on field 0, X1 on field 1, X2 on field 2
+fn chain_of(ts: &[Tt]) -> Option<Tm> {
+    let n = ts.len();
+    if n < 7 { return None; }
+    let link = |i: usize| -> Option<(String, &Vec<Tt>)> { match (&ts[i], &ts[i + 1], &ts[i + 2]) { (Tt::Tok(d), Tt::Tok(m), Tt::Grp('(', g)) if d == "." => Some((m.clone(), g)), _ => None } };
+    let (m2, x2) = link(n - 3)?; let (m1, x1) = link(n - 6)?;
+    if m1 != m2 { return None; }
+    let head = &ts[..n - 6];
+    let only = |t: &[Tt], f: usize| { let mut a = vec![]; fields_of(t, 3, &mut a); a == vec![f] };
+    if !(only(head, 0) && only(x1, 1) && only(x2, 2)) { return None; }
+    if canon(head, 3, 0) != canon(x2, 3, 2) { return None; }
+    Some(Tm::Chain { leaf: canon(head, 3, 0), nest: canon(x1, 3, 1), method: m1 })
+}
+
 /// templatise the content of one group (schematic shape: fields 0 = leaf, 1 = nested, 2 = leaf)
 fn templ(ts: &[Tt], out: &mut Vec<Tm>) {
     let n = 3;
+    if let Some(c) = chain_of(ts) { out.push(c); return; }
     for sep in [";", ",", "||"] {
         if !ts.iter().any(|t| matches!(t, Tt::Tok(s) if s == sep)) { continue; }
         let (items, trailing) = split_items(ts, sep);
@@ -158,7 +187,10 @@ fn templ(ts: &[Tt], out: &mut Vec<Tm>) {
     for t in ts {
         match t {
             Tt::Tok(s) => push_tok(out, match canon_ident(s, n) { Some((0, c)) => c.replacen('§', "§first", 1), _ => s.clone() }),
-            Tt::Grp(d, inner) => { push_tok(out, d.to_string()); templ(inner, out); push_tok(out, close(*d).into()); }
+            Tt::Grp(d, inner) => {
+                if *d == '(' { if let Some(v) = left_nested(inner) { if v == (0..n).map(Shape::fname).collect::<Vec<_>>() { out.push(Tm::TuplePat); continue; } } }
+                push_tok(out, d.to_string()); templ(inner, out); push_tok(out, close(*d).into());
+            }
         }
     }
 }
@@ -183,6 +215,20 @@ fn render(tm: &[Tm], sh: &Shape) -> Vec<String> {
                     out.extend(src.iter().map(|s| inst(s, i)));
                     if i + 1 < n || *trailing { out.push(sep.clone()); }
                 }
+            }
+            Tm::Chain { leaf, nest, method } => {
+                for i in 0..sh.nested.len() {
+                    let src = if sh.nested[i] { nest } else { leaf };
+                    if i > 0 { out.push(".".into()); out.push(method.clone()); out.push("(".into()); }
+                    out.extend(src.iter().map(|s| inst(s, i)));
+                    if i > 0 { out.push(")".into()); }
+                }
+            }
+            Tm::TuplePat => {
+                let n = sh.nested.len();
+                for _ in 1..n { out.push("(".into()); }
+                out.push(Shape::fname(0));
+                for i in 1..n { out.push(",".into()); out.push(Shape::fname(i)); out.push(")".into()); }
             }
         }
     }
@@ -265,13 +311,16 @@ pub fn skeletons(out: &mut String) {
             let sub = |v: Vec<String>| { let mut prev = String::new(); v.into_iter().map(|s| {
                 let r = match g.params.iter().position(|p| *p == s) { Some(k) if prev != "." && prev != "::" => format!("${}", k), _ => s.clone() };
                 prev = s; r }).collect::<Vec<_>>() };
-            match t { Tm::T(v) => Tm::T(sub(v)), Tm::Rep { leaf, nest, sep, trailing } => Tm::Rep { leaf: sub(leaf), nest: sub(nest), sep, trailing } }
+            match t { Tm::T(v) => Tm::T(sub(v)), Tm::Rep { leaf, nest, sep, trailing } => Tm::Rep { leaf: sub(leaf), nest: sub(nest), sep, trailing },
+                      Tm::Chain { leaf, nest, method } => Tm::Chain { leaf: sub(leaf), nest: sub(nest), method }, Tm::TuplePat => Tm::TuplePat }
         }).collect();
         let name = format!("sk_{}", lean_name(&g.key));
         let body = if why.is_empty() {
             tm.iter().map(|t| match t {
                 Tm::T(v) => format!(".t {}", lean_toks(v)),
                 Tm::Rep { leaf, nest, sep, trailing } => format!(".rep {} {} {} {}", lean_toks(leaf), lean_toks(nest), lean_str(sep), trailing),
+                Tm::Chain { leaf, nest, method } => format!(".chain {} {} {}", lean_toks(leaf), lean_toks(nest), lean_str(method)),
+                Tm::TuplePat => ".tuplePat".to_string(),
             }).collect::<Vec<_>>().join(",\n    ")
         } else { n_opaque += 1; format!(".opaque {}", lean_str(&why)) };
         let recv = g.sig.iter().position(|s| s == "self").map(|p| {
